@@ -287,7 +287,7 @@ fn facts(body: &str) -> u64 {
 }
 
 /// names of system.rs functions the Lean side knows (code = index); an unknown function gets 999
-const SYS_FNS: [&str; 26] = [
+const SYS_FNS: [&str; 27] = [
     "field_write",
     "field_lock",
     "key_value_entry_set",
@@ -315,6 +315,8 @@ const SYS_FNS: [&str; 26] = [
     "kernel_set_substate",
     "kernel_remove_substate",
     "kernel_drain_substates",
+    // read-only open of a package's blueprint definition entry (default = empty unlocked entry)
+    "load_blueprint_definition",
 ];
 
 fn sys_facts() -> Vec<(String, u64, u64)> {
